@@ -1,0 +1,16 @@
+//go:build verif
+
+package types
+
+// Contracts for the govc verifier (/verif). Comment-only; excluded from every
+// normal build by the tag above.
+
+// ---- the run-time types decode alike from JSON and YAML (C17, C02) ---------------
+// Generated structs hold format-typed strings as values of these types; the
+// generated UnmarshalJSON and UnmarshalYAML hand the field to the decoder, which
+// uses the type's own method where there is one. A type with UnmarshalJSON but no
+// UnmarshalYAML is parsed by yaml through the embedded time.Time (RFC 3339), so a
+// date or time that JSON accepts is rejected as YAML.
+//@ func (*SerializableDate).UnmarshalJSON@twins
+//@   props C17 C02
+//@   decoders-come-in-pairs
